@@ -286,6 +286,7 @@ type recRes struct {
 	lookups []lookupRec
 	calls   []callRec
 	ncalls  *int // shared across the engines of one session
+	share   bool // hand out the application's bytecode slices themselves (suite conc)
 }
 
 func ctxLang(ctx context.Context) *string {
@@ -328,6 +329,9 @@ func (r *recRes) GetCode(ctx context.Context, sym string) ([]byte, error) {
 	b, ok := r.c.nodes[sym]
 	if !ok {
 		return nil, fmt.Errorf("nocode %s", sym)
+	}
+	if r.share {
+		return b, nil
 	}
 	// hand out a private copy with no spare capacity: sharing is the subject of C19, not of this suite
 	return append(make([]byte, 0, len(b)), b...), nil
